@@ -3,6 +3,7 @@
 #include "world.hpp"
 #include <ipr/traversal>
 #include <stdexcept>
+#include <algorithm>
 
 namespace model {
 using sim::SutScope;
@@ -462,7 +463,7 @@ Ref World::apply_forms_misc(const Op& op)
             // live inside that body, and the body is sealed afterwards (no further members).
             if (Rec* tr = rec(nref(t)); tr != nullptr and is_udt_category(tr->exp.cat)) {
                Rec* dr = rec(nref(*d));
-               if (dr == nullptr or not can_seal_as_body(t, dr->born)) break;
+               if (dr == nullptr or not can_seal_as_body(t, dr->seq)) break;
                sealed_bodies.insert(nref(t));
                body_printers.insert(nref(*d));
             }
@@ -484,6 +485,7 @@ Ref World::apply_forms_misc(const Op& op)
             impl::Mapping* m = mappings.pick(op.a[2]);
             if (not older(nref(*m), nref(*d))) break;
             d->init = m;
+            for (auto& kv : template_mapping) kv.second.erase(std::remove(kv.second.begin(), kv.second.end(), nref(*d)), kv.second.end());
             if (Rec* rc = rec(nref(*d))) {
                rc->exp.set_r("mapping", nref(*m));
                const Slot* res = nullptr;
